@@ -354,6 +354,7 @@ def part_collector_empty_blocks(chk):
     from pygyro.model.layout import getLayoutHandler
     from pygyro.model.grid import Grid
     from pygyro.diagnostics.diagnostic_collector import DiagnosticCollector
+    common.use_repo(h5=True)
     rng = chk.rng
     std4 = {'flux_surface': [0, 3, 1, 2], 'v_parallel': [0, 2, 1, 3], 'poloidal': [3, 2, 1, 0]}
     for it in range(chk.n(4, 16)):
@@ -376,11 +377,27 @@ def part_collector_empty_blocks(chk):
             dc = DiagnosticCollector(comm, 2, 1, f, phi)
             dc.collect(f, phi, 0)
             dc.reduce()
-            return (float(dc.min_val[0]), float(dc.max_val[0])) if comm.Get_rank() == 0 else None
-        case = {'npts': npts, 'process_grid': list(P), 'layout': lay, 'what': 'DiagnosticCollector.collect + reduce with an empty block'}
+            # extrema of a fixed-index slice (what the slice plotters ask for): the fixed axis is the over-decomposed direction, the other
+            # distributed direction, or an undistributed one; a process that is empty in ANOTHER direction still takes part
+            for ax in range(4):
+                f.getMin(0, ax, npts[ax] - 1)
+                f.getMax(0, ax, 0)
+            # a checkpoint of the over-decomposed grid, written and read back: file creation, dataset creation, attribute creation and
+            # close are collective over the grid's communicator, also for the members that have nothing to write
+            f.writeH5Dataset(folder, 3)
+            f.getAllData()[:] = -1.0
+            f.loadFromFile(folder, 3)
+            ok = bool((f.getAllData() == 1.0 + comm.Get_rank()).all())
+            return (float(dc.min_val[0]), float(dc.max_val[0]), ok) if comm.Get_rank() == 0 else (None, None, ok)
+        folder = tempfile.mkdtemp(prefix='pgc06e')
+        case = {'npts': npts, 'process_grid': list(P), 'layout': lay, 'what': 'DiagnosticCollector.collect + reduce, slice extrema, checkpoint write / read with an empty block'}
         ref = run_policies(chk, P[0] * P[1], body, case, 'diagnostic collector', policies=('reverse',))
+        import shutil
+        shutil.rmtree(folder, ignore_errors=True)
         if ref is None:
             continue
+        if not all(v[2] for v in ref.values()):
+            chk.fail('C06:checkpoint-empty-block', 'a checkpoint written and read back on an over-decomposed grid does not give back the blocks', case)
         chk.case(('collector-empty', tuple(npts), tuple(P), lay), nontrivial=True)
         chk.traces_validated += P[0] * P[1]
         chk.count('diagnostic collector with an empty block')
